@@ -92,6 +92,10 @@ def run(ctx):
                         l, r = strip_sym(d[2]), strip_sym(d[3])
                         if sym_is_call(l, "fetch_add") and (const_int(r) == BS or "BLOCK_SIZE" in repr(r)):
                             bounded = (d[1] == "Ge" and lab is False) or (d[1] == "Lt" and lab is True)
+                    # the checked accessor: `let Some(slot) = self.slots.get(index) else { return Err(value) }` — the slot
+                    # array has BLOCK_SIZE elements, so Some <=> index < BLOCK_SIZE
+                    if lab == "Some" and sym_is_call(d, "<impl [T]>::get", "get") and len(d[2]) == 2 and "'slots'" in repr(d[2][0]) and sym_is_call(strip_sym(d[2][1]), "fetch_add"):
+                        bounded = True
                 chk.ob("C05.a", f"{push.path} [bounds check]", bounded, "the slot write happens only when the claimed index < BLOCK_SIZE" if bounded else "the slot write is not guarded by index < BLOCK_SIZE (out-of-bounds write when the block is full or sealed)", w.loc())
                 # slot index is the claimed index
                 ws = arg_syms(w)
